@@ -172,6 +172,12 @@ def structured_families() -> tuple[dict, dict]:
     fam["NumFormats"] = ({"type": "object", "properties": {"n32": {"type": "number", "format": "int32"}, "n64": {"type": "number", "format": "int64"}, "f": {"type": "number", "format": "float"},
                                                             "arr": {"type": "array", "items": {"type": "number", "format": "int32"}}, "odd": {"type": "integer", "format": "double"}}},
                          [{"n32": 12.5, "n64": 0.25, "f": 1.5, "arr": [10.75, 12.5]}, {"n32": 3, "odd": 4}, {}])
+    # two allOf members declare one enum property: the narrower list first, the wider one later and with a default (the merged property is the
+    # narrower enum, its default must name a member of THAT class)
+    fam["AcctBase"] = ({"type": "object", "properties": {"status": {"type": "string", "enum": ["active", "suspended"]}, "level": {"type": "integer", "enum": [1, 2]}}}, [{"status": "active"}, {}])
+    fam["AcctManaged"] = ({"allOf": [ref("AcctBase"), {"type": "object", "properties": {"status": {"type": "string", "enum": ["active", "suspended", "archived"], "default": "active"},
+                                                                                         "level": {"type": "integer", "enum": [1, 2, 3], "default": 2}, "owner": S}}]},
+                          [{"status": "suspended", "level": 1, "owner": "o"}, {}])
     # every presence pattern of three optional properties of different kinds
     fam["Presence"] = ({"type": "object", "properties": {"a": {"type": "string", "format": "date"}, "b": ref("M"), "c": {"type": ["integer", "null"]}}},
                        [{k: v for k, v in zip("abc", vals) if v != "ABSENT"} for vals in itertools.product(["2020-01-02", "ABSENT"], [{"v": 1}, "ABSENT"], [5, None, "ABSENT"])])
